@@ -91,6 +91,15 @@ class Inliner:
 
     # ------------------------------------------------------------------ which calls
     def callee_of(self, caller, n):
+        if n.get("k") == "call" and n.get("op") == "()" and not n.get("noinline") and n.get("callee"):
+            # a closure defined in this very function and called by name: `auto helper = [&] {...}; helper();`
+            th = ir.unwrap(n.get("this")) if n.get("this") is not None else None
+            lam = self.prog.fn(n["callee"])
+            if (isinstance(th, dict) and th.get("k") == "ref" and th.get("decl", "").startswith("local:") and "(lambda in" in (th.get("type") or "")
+                    and lam is not None and lam.kind == "lambda" and lam.has_cfg and lam.id.startswith(caller.id.split("#")[0] + "::<lambda")
+                    and lam.file.startswith("/repo/") and len(lam.blocks) <= MAX_BLOCKS and lam.id not in self._stack):
+                return lam
+            return None
         if n.get("k") != "call" or n.get("virtual") or n.get("op") or n.get("noinline"):
             return None
         cid = n.get("callee")
@@ -152,6 +161,8 @@ class Inliner:
         thu = ir.unwrap(th) if th is not None else None
         this_obj = None  # object expression replacing *this
         this_ptr = None  # pointer expression replacing this
+        if callee.kind == "lambda":
+            thu = None  # `this` inside a closure body is the captured enclosing object, captured locals keep their names
         if thu is not None and not (isinstance(thu, dict) and thu.get("k") == "this"):
             if call.get("arrow"):
                 this_ptr = th
@@ -198,6 +209,13 @@ class Inliner:
                 for v in out.get("vars", []):
                     if v.get("name") in lren:
                         v["name"] = lren[v["name"]]
+            if k == "call" and (out.get("name") or "") in ("std::forward", "std::move") and len(out.get("args", [])) == 1:
+                inner = ir.unwrap(out["args"][0])
+                if isinstance(inner, dict) and inner.get("k") == "call" and (inner.get("name") or "") in ("std::forward", "std::move") and len(inner.get("args", [])) == 1:
+                    # forward(forward(x)) == forward(x); move(forward(x)) == move(x)
+                    if (out.get("name") or "") == "std::forward":
+                        return inner
+                    out["args"] = [inner["args"][0]]
             return out
 
         return rw
@@ -262,7 +280,7 @@ class Inliner:
         found = False
         for bid, i, e in fn.roots():
             for n in walk(e["expr"]):
-                if n.get("k") == "call" and self.callee_of(fn, n) is not None:
+                if n.get("k") == "call" and (self.callee_of(fn, n) is not None or self._is_foreach(fn, n) is not None):
                     found = True
                     break
             if found:
@@ -293,6 +311,9 @@ class Inliner:
                         x = e.get("expr")
                         if x is None or e.get("inl"):
                             continue
+                        if self._foreach(fn, d, blocks, cexit, names, bid, i, e):
+                            progress = True
+                            break
                         site = None
                         for n in walk(x, into_sc=True):
                             if n.get("k") == "call":
@@ -320,6 +341,146 @@ class Inliner:
             self._stack.pop()
         self._memo[fn.id] = new
         return new
+
+    # ------------------------------------------------------------------ std::for_each(first, last, lambda) -> loop
+    def _is_foreach(self, fn, n):
+        if n.get("k") != "call" or (n.get("name") or "") != "std::for_each" or n.get("noinline"):
+            return None
+        args = [a for a in n.get("args", []) if not (isinstance(a, dict) and a.get("k") == "defarg")]
+        if len(args) != 3:
+            return None
+        lam = ir.unwrap(args[2])
+        if not (isinstance(lam, dict) and lam.get("k") == "lambda"):
+            return None
+        if not fn.file.startswith("/repo/"):
+            return None
+        body = None
+        for cid in list(lam.get("bodies", [])) + [lam.get("id")]:
+            g = self.prog.fn(cid) if cid else None
+            if g is not None and g.has_cfg and len(g.params) == 1 and len(g.blocks) <= MAX_BLOCKS:
+                body = g
+                break
+        if body is None:
+            return None
+        return args[0], args[1], body
+
+    def _foreach(self, fn, d, blocks, cexit, names, bid, i, e):
+        """the statement `std::for_each(first, last, [..](auto& x) {body});` becomes the CFG of `for (x : [first, last)) body`"""
+        x = e["expr"]
+        xu = ir.unwrap(x)
+        if not (isinstance(xu, dict) and xu.get("k") == "call"):
+            return False
+        fe = self._is_foreach(fn, xu)
+        if fe is None or e.get("kind", "stmt") != "stmt":
+            return False
+        first, last, lam = fe
+        self._k = getattr(self, "_k", 90) + 1
+        K = self._k
+        b = blocks[bid]
+        ln = xu.get("ln")
+        rng = None
+        f0, l0 = ir.unwrap(first), ir.unwrap(last)
+        if (isinstance(f0, dict) and isinstance(l0, dict) and f0.get("k") == "call" and l0.get("k") == "call" and ir.short(f0.get("name") or "") in ("begin", "cbegin")
+                and ir.short(l0.get("name") or "") in ("end", "cend")):
+            o1 = f0.get("this") if f0.get("this") is not None else (f0.get("args") or [None])[0]
+            o2 = l0.get("this") if l0.get("this") is not None else (l0.get("args") or [None])[0]
+            if o1 is not None and o2 is not None and ir.fmt(o1) == ir.fmt(o2):
+                rng = o1
+
+        def ref(nm, ty=""):
+            return {"k": "ref", "decl": "local:" + nm, "type": ty}
+
+        def decl(nm, init, ty=""):
+            return {"expr": {"k": "decl", "ln": ln, "vars": [{"name": nm, "type": ty, "init": init}]}, "kind": "stmt", "ln": ln, "text": "%s = %s" % (nm, ir.fmt(init)), "inl": "std::for_each"}
+        init_elems = []
+        B, E = "__begin%d" % K, "__end%d" % K
+        if rng is not None:
+            R = "__range%d" % K
+            init_elems.append(decl(R, rng, (ir.unwrap(rng).get("type") or "") + " &"))
+            init_elems.append(decl(E, {"k": "call", "name": l0.get("name"), "callee": l0.get("callee"), "this": ref(R), "args": [], "arrow": False, "type": l0.get("type", ""), "ln": ln}))
+            init_elems.append(decl(B, {"k": "call", "name": f0.get("name"), "callee": f0.get("callee"), "this": ref(R), "args": [], "arrow": False, "type": f0.get("type", ""), "ln": ln}))
+        else:
+            init_elems.append(decl(E, last))
+            init_elems.append(decl(B, first))
+        new_id = max(blocks) + 1
+        head_id, latch_id, post_id = new_id, new_id + 1, new_id + 2
+        new_id += 3
+        cond = {"k": "bin", "op": "!=", "l": ref(B), "r": ref(E), "type": "bool", "ln": ln}
+        post = {"id": post_id, "elems": b["elems"][i + 1:], "succ": b.get("succ", []), "term": b.get("term", {"kind": "none"})}
+        if b.get("noreturn"):
+            post["noreturn"] = True
+        # the lambda body, its parameter bound to *__begin
+        p0 = lam.params[0]
+        pname = p0.get("name") or "__elem%d" % K
+        fake_call = {"k": "call", "args": [], "ln": ln}
+        rw = self._rewriter(names | {pname}, lam, fake_call, [])
+        idmap = {}
+        for cb in lam.blocks:
+            if cb == lam.exit:
+                continue
+            idmap[cb] = new_id
+            new_id += 1
+        entry_id = idmap[lam.entry]
+        for cb, cblock in lam.blocks.items():
+            if cb == lam.exit:
+                continue
+            nb = {"id": idmap[cb], "elems": [], "term": {}, "succ": []}
+            if cb == lam.entry:
+                nb["elems"].append(decl(pname, {"k": "un", "op": "*", "e": ref(B), "ln": ln}, p0.get("type", "")))
+            for ce in cblock.get("elems", []):
+                cx = ce.get("expr")
+                ne = dict(ce)
+                ne["inl"] = lam.id
+                if isinstance(cx, dict) and cx.get("k") == "return":
+                    if cx.get("e") is None:
+                        continue
+                    ne["expr"] = rw(cx["e"])
+                elif cx is not None:
+                    ne["expr"] = rw(cx)
+                nb["elems"].append(ne)
+            ct = cblock.get("term", {"kind": "none"})
+            nt = dict(ct)
+            for key in ("cond", "full"):
+                if isinstance(ct.get(key), dict):
+                    nt[key] = rw(ct[key])
+            nb["term"] = nt
+            if cblock.get("noreturn"):
+                nb["noreturn"] = True
+            for s0 in cblock.get("succ", []):
+                ns = dict(s0)
+                if s0.get("to") == lam.exit:
+                    ns["to"] = cexit if cblock.get("noreturn") else latch_id
+                elif s0.get("to") is not None:
+                    ns["to"] = idmap.get(s0["to"])
+                nb["succ"].append(ns)
+            blocks[nb["id"]] = nb
+        # parameter references inside the body are param:<name> -> make them refs to the synthesized local
+        def fix_param(n):
+            if isinstance(n, dict):
+                if n.get("k") == "ref" and n.get("decl") == "param:" + pname:
+                    n["decl"] = "local:" + pname
+                for v in n.values():
+                    if isinstance(v, (dict, list)):
+                        fix_param(v)
+            elif isinstance(n, list):
+                for y in n:
+                    fix_param(y)
+        for nid in idmap.values():
+            for el in blocks[nid]["elems"][(1 if nid == entry_id else 0):]:
+                fix_param(el.get("expr"))
+            fix_param(blocks[nid].get("term"))
+        blocks[head_id] = {"id": head_id, "elems": [{"expr": cond, "kind": "stmt", "ln": ln, "text": "%s != %s" % (B, E), "inl": "std::for_each"}],
+                           "term": {"kind": "range_for", "cond": copy.deepcopy(cond), "ln": ln}, "succ": [{"to": entry_id}, {"to": post_id}]}
+        blocks[latch_id] = {"id": latch_id, "elems": [{"expr": {"k": "un", "op": "++pre", "e": ref(B), "ln": ln}, "kind": "stmt", "ln": ln, "text": "++%s" % B, "inl": "std::for_each"}],
+                            "term": {"kind": "none"}, "succ": [{"to": head_id}]}
+        blocks[post_id] = post
+        b["elems"] = b["elems"][:i] + init_elems
+        b["succ"] = [{"to": head_id}]
+        b["term"] = {"kind": "none"}
+        b.pop("noreturn", None)
+        names.update({B, E, pname})
+        self.log.append((fn.id, lam.id, "for_each->loop"))
+        return True
 
     def _splice(self, fn, d, blocks, cexit, names, bid, i, e, call, cal):
         b = blocks[bid]
@@ -528,6 +689,8 @@ def copyprop(fn, known_locals, log):
             if y.get("k") == "un" and y.get("op") == "&":
                 t = ir.unwrap(y["e"])
                 if isinstance(t, dict) and t.get("k") == "ref" and t.get("decl", "").startswith("local:"):
+                    if (decls.get(t["decl"][6:], {}).get("type") or "").rstrip().endswith("&"):
+                        continue  # the address of a reference is the address of what it names
                     written_l.add(t["decl"][6:])
 
     def stable(n, seen):
@@ -567,8 +730,20 @@ def copyprop(fn, known_locals, log):
             if nm in PURE_FREE:
                 return all(stable(a, seen) for a in args)
             cid = n.get("callee")
-            if n.get("this") is not None and cid and is_const_method_id(cid) and not all_fields_unstable and not written_f:
-                return stable(n["this"], seen) and all(stable(a, seen) for a in args)
+            if n.get("this") is not None and cid and is_const_method_id(cid):
+                # a const method of a local/parameter object that this function never modifies reads only that object
+                # (standard containers / iterators); of *this or a member only while no member is written at all
+                root = ir.unwrap(n["this"])
+                while isinstance(root, dict) and root.get("k") in ("member", "call", "un", "cast", "subscript"):
+                    nxt = root.get("base") if root.get("k") in ("member", "subscript") else (root.get("this") if root.get("k") == "call" else root.get("e"))
+                    if nxt is None:
+                        break
+                    root = ir.unwrap(nxt)
+                local_root = isinstance(root, dict) and root.get("k") == "ref" and (root.get("decl", "").startswith("local:") or root.get("decl", "").startswith("param:"))
+                if local_root and cid.startswith("std::"):
+                    return stable(n["this"], seen) and all(stable(a, seen) for a in args)
+                if not all_fields_unstable and not written_f:
+                    return stable(n["this"], seen) and all(stable(a, seen) for a in args)
             return False
         if k == "construct":
             args = [a for a in n.get("args", []) if not (isinstance(a, dict) and a.get("k") == "defarg")]
@@ -623,6 +798,119 @@ def copyprop(fn, known_locals, log):
     return new
 
 
+# ------------------------------------------------------------------------------------------- member names
+KNOWN_FIELDS_FILE = os.path.join(HERE, "rules", "known_fields.txt")
+
+
+def program_fields(prog):
+    """{class name without template arguments: [field names in declaration order]} for /repo classes"""
+    out = {}
+    for name, c in sorted(prog.classes.items()):
+        if not (c.get("file") or "").startswith("/repo/"):
+            continue
+        fl = [f["name"] for f in c.get("fields", []) if not f.get("static")]
+        if not fl:
+            continue
+        key = strip_targs(name)
+        if key not in out or c.get("pattern"):
+            out[key] = fl
+    return out
+
+
+def load_known_fields():
+    if not os.path.exists(KNOWN_FIELDS_FILE):
+        return None
+    out = {}
+    for l in open(KNOWN_FIELDS_FILE, encoding="utf-8"):
+        l = l.rstrip("\n")
+        if l and not l.startswith("#") and "\t" in l:
+            q, names = l.split("\t", 1)
+            out[q] = names.split(",")
+    return out
+
+
+def canon_fields(prog, known_fields, log):
+    """A data member that was only renamed (same class, same number of members, same position) gets its known name
+    back, everywhere: the rule tables speak about members by the names of the tree they were confirmed against."""
+    ren = {}  # (stripped class, new name) -> old name
+    for name, c in prog.classes.items():
+        if not (c.get("file") or "").startswith("/repo/"):
+            continue
+        key = strip_targs(name)
+        old = known_fields.get(key)
+        cur = [f["name"] for f in c.get("fields", []) if not f.get("static")]
+        if not old or len(old) != len(cur) or old == cur:
+            continue
+        if set(old) == set(cur):
+            continue  # reordered only
+        # positions whose name changed; the new names must be unknown and the old ones gone
+        ok = True
+        m = {}
+        for o, n in zip(old, cur):
+            if o != n:
+                if n in old or o in cur:
+                    ok = False
+                m[n] = o
+        if ok:
+            for n, o in m.items():
+                ren[(key, n)] = o
+    if not ren:
+        return
+    classes_hit = {k[0] for k in ren}
+
+    def fix_qual(q):
+        if not isinstance(q, str) or "::" not in q:
+            return q
+        cls, _, nm = q.rpartition("::")
+        o = ren.get((strip_targs(cls), nm))
+        return cls + "::" + o if o else q
+
+    ctx_cls = [None]
+
+    def rw(n):
+        if isinstance(n, dict):
+            if n.get("k") == "member" and "field" in n:
+                q = n["field"]
+                if isinstance(q, str) and q.startswith("?::") and ctx_cls[0]:
+                    # dependent member access inside a template of that class: other.member / this->member
+                    o = ren.get((ctx_cls[0], q[3:]))
+                    if o:
+                        n["field"] = "?::" + o
+                else:
+                    n["field"] = fix_qual(q)
+            for v in n.values():
+                if isinstance(v, (dict, list)):
+                    rw(v)
+        elif isinstance(n, list):
+            for x in n:
+                rw(x)
+
+    for name, c in prog.classes.items():
+        if strip_targs(name) in classes_hit:
+            for f in c.get("fields", []):
+                o = ren.get((strip_targs(name), f["name"]))
+                if o:
+                    f["qual"] = f["qual"].rsplit("::", 1)[0] + "::" + o
+                    f["name"] = o
+    for f in prog.fns.values():
+        if not f.has_cfg:
+            continue
+        owner = f.cls or (f.id.split("::(lambda")[0].rsplit("::", 1)[0] if f.kind == "lambda" else None)
+        ctx_cls[0] = strip_targs(owner) if owner and strip_targs(owner) in classes_hit else None
+        for b in f.blocks.values():
+            for e in b.get("elems", []):
+                if e.get("field"):
+                    e["field"] = fix_qual(e["field"])
+                if e.get("expr") is not None:
+                    rw(e["expr"])
+            t = b.get("term", {})
+            for key in ("cond", "full"):
+                if isinstance(t.get(key), dict):
+                    rw(t[key])
+    for (k, n), o in sorted(ren.items()):
+        log.append((k, "member:" + n, "renamed back to " + o))
+
+
 def normalise(prog, known=None):
     """replace every function that calls an unknown /repo helper by its expanded form; returns the inlining log"""
     known = load_known() if known is None else known
@@ -631,6 +919,9 @@ def normalise(prog, known=None):
         return None
     inl = Inliner(prog, known)
     known_locals = load_known_locals()
+    kf = load_known_fields()
+    if kf is not None:
+        canon_fields(prog, kf, inl.log)
     for fid in list(prog.fns):
         f = prog.fns[fid]
         if not f.has_cfg:
